@@ -240,7 +240,7 @@ func (e *Enc) havocCallWritesAt(h *Heap, writes map[string]bool, callee *ssa.Fun
 			}
 		}
 		sort.Strings(except)
-		if len(except) == 0 && valueSort(e.heapSort[k]) {
+		if len(except) == 0 && valueSort(e.heapSort[k]) && e.token {
 			// The callee writes cells of this heap only in memory it allocates itself. Nothing has been said so far about
 			// cells that are not allocated yet, so the heap term can stay: the values the callee leaves in its own
 			// allocations are the (so far unconstrained) values of the term at those addresses. Only for heaps whose
@@ -662,7 +662,7 @@ func (e *Enc) appendCall(ins ssa.Instruction, c *ssa.CallCommon, res *ssa.Call, 
 		}
 		defer func() { e.setBytes(e.cur, rv.T, app("bcat", e.tokBytes(pre, s.T), tb)) }()
 	}
-	if e.precise && t.S == "Slice" {
+	if (e.precise || e.token && !isByteSlice(c.Args[0].Type())) && t.S == "Slice" {
 		switch under(st.Elem()).(type) {
 		case *types.Struct, *types.Array:
 			for _, k := range e.w.keysOfType(st.Elem()) {
